@@ -36,6 +36,7 @@ type options struct {
 	verbose bool
 	only    string
 	out     string
+	patient bool
 }
 
 func main() {
@@ -233,6 +234,15 @@ func runObligations(eng *Engine, obls []*Obligation, dir string, o options) {
 					ob.All = append(ob.All, all...)
 				}
 			}
+			// last resort before reporting: patient retries (a loaded or slower machine must not
+			// turn a proof that needs a few seconds into an alarm)
+			for k := 1; k <= 2 && o.patient && ob.Result.Verdict != "unsat" && ob.Result.Verdict != "sat" && ob.Result.Verdict != "disagree"; k++ {
+				if r, all := raceSolvers(file, o.timeout*6, o.seed+17*k, false); r.Verdict == "unsat" || r.Verdict == "sat" {
+					r.Solver += "(patient)"
+					ob.Result = r
+					ob.All = append(ob.All, all...)
+				}
+			}
 		}(ob)
 	}
 	wg.Wait()
@@ -385,6 +395,7 @@ func hasProp(ps []string, p string) bool {
 }
 
 func cmdCheck(eng *Engine, o options, start time.Time) int {
+	o.patient = true
 	if o.prop == "" {
 		fmt.Fprintln(os.Stderr, "check needs -prop")
 		return 2
